@@ -336,7 +336,9 @@ def rule_C03(env):
             p3 = R.o3_check(spec, lf)
         except (KeyError, AssertionError, OverflowError) as e:
             p3 = ["cannot evaluate: %r" % (e,)]
-        p3 = [p for p in p3 if p.startswith("slot ") and "mark" not in p.lower()]
+        # kinds are tracked per slot: a slot whose kind differs, and equally a depth that differs (every slot shifts), make the
+        # later kind guards look at the wrong object
+        p3 = [p for p in p3 if (p.startswith("slot ") and "mark" not in p.lower()) or "depth differs" in p]
         if p3:
             res.add("R03.c", "process_stack_ops/%s/kind-drift" % op,
                     "the simulated kind after %s differs from the kind the bytes produce, so later kind guards test the wrong kind: %s" % (op, "; ".join(p3)),
